@@ -62,22 +62,25 @@ func (eval *Evaluator) Evaluate(ct *rlwe.Ciphertext, testPolyWithSlotIndex map[i
 	ringQBR := eval.paramsBR.RingQ().AtLevel(brk.LevelQ())
 	ringQLWE := eval.paramsLWE.RingQ().AtLevel(ct.Level())
 
+	// Scratch in the LWE ring (the accumulator lives in the blind rotation ring, which may have fewer moduli)
+	lwe := [2]ring.Poly{ringQLWE.NewPoly(), ringQLWE.NewPoly()}
+
 	if ct.IsNTT {
-		ringQLWE.INTT(ct.Value[0], acc.Value[0])
-		ringQLWE.INTT(ct.Value[1], acc.Value[1])
+		ringQLWE.INTT(ct.Value[0], lwe[0])
+		ringQLWE.INTT(ct.Value[1], lwe[1])
 	} else {
-		acc.Value[0].CopyLvl(ct.Level(), ct.Value[0])
-		acc.Value[1].CopyLvl(ct.Level(), ct.Value[1])
+		lwe[0].CopyLvl(ct.Level(), ct.Value[0])
+		lwe[1].CopyLvl(ct.Level(), ct.Value[1])
 	}
 
 	// Switch modulus from Q to 2N and ensure they are odd
-	eval.modSwitchRLWETo2NLvl(ct.Level(), acc.Value[1], acc.Value[1], true)
+	eval.modSwitchRLWETo2NLvl(ct.Level(), lwe[1], lwe[1], true)
 
 	// Conversion from Convolution(a, sk) to DotProd(a, sk) for LWE decryption.
 	// Copy coefficients multiplied by X^{N-1} in reverse order:
 	// a_{0} -a_{N-1} -a2_{N-2} ... -a_{1}
 	tmp0 := aRLWEMod2N.Coeffs[0]
-	tmp1 := acc.Value[1].Coeffs[0]
+	tmp1 := lwe[1].Coeffs[0]
 	tmp0[0] = tmp1[0]
 	NLWE := ringQLWE.N()
 	/* #nosec G115 -- N cannot be negative */
@@ -87,7 +90,7 @@ func (eval *Evaluator) Evaluate(ct *rlwe.Ciphertext, testPolyWithSlotIndex map[i
 	}
 
 	// Switch modulus from Q to 2N
-	eval.modSwitchRLWETo2NLvl(ct.Level(), acc.Value[0], bRLWEMod2N, false)
+	eval.modSwitchRLWETo2NLvl(ct.Level(), lwe[0], bRLWEMod2N, false)
 
 	res = make(map[int]*rlwe.Ciphertext)
 
